@@ -500,7 +500,11 @@ impl Transport for MmioTransport<'_> {
         );
         assert!(offset.is_multiple_of(align_of::<T>()));
 
-        if self.config_space.len() < offset + size_of::<T>() {
+        // `offset` comes from the caller: the end of the access must be computed without overflow.
+        if offset
+            .checked_add(size_of::<T>())
+            .is_none_or(|end| self.config_space.len() < end)
+        {
             Err(Error::ConfigSpaceTooSmall)
         } else {
             // SAFETY: The caller of `MmioTransport::new` guaranteed that the header pointer was
@@ -530,7 +534,11 @@ impl Transport for MmioTransport<'_> {
         );
         assert!(offset.is_multiple_of(align_of::<T>()));
 
-        if self.config_space.len() < offset + size_of::<T>() {
+        // `offset` comes from the caller: the end of the access must be computed without overflow.
+        if offset
+            .checked_add(size_of::<T>())
+            .is_none_or(|end| self.config_space.len() < end)
+        {
             Err(Error::ConfigSpaceTooSmall)
         } else {
             // SAFETY: The caller of `MmioTransport::new` guaranteed that the header pointer was
